@@ -144,7 +144,8 @@ def gen_case(seed, run, tier):
                  if rs.random() < 0.7]
     if formula_mode:
         enabled_q.append("bounds")
-    enabled_m = [m for m in ("add", "add_list", "iadd", "iadd_list", "subset", "split", "concat") if rs.random() < 0.75] or ["add", "split"]
+    enabled_m = [m for m in ("add", "add_list", "iadd", "iadd_list", "subset", "split", "concat", "sort_inplace", "register")
+                 if rs.random() < 0.75] or ["add", "split"]
     live = OrderedDict()  # id -> (rx list, subs list) as the generator expects it (advisory only)
     ops = []
 
@@ -204,6 +205,8 @@ def gen_case(seed, run, tier):
                 if kind in ("iadd", "concat") and a == b:
                     oid += 1
                     continue
+                if kind == "concat":
+                    op["more"] = [x for x in rw.sample(ids, min(len(ids), rw.choice([0, 0, 1, 2]))) if x != a]
                 if kind == "add":
                     live["s%d" % oid] = True
                 if kind == "concat":
@@ -223,6 +226,10 @@ def gen_case(seed, run, tier):
                         op["iter_raise"] = rf.randint(0, len(op["rx"]))
                 if kind == "add_list":
                     live["s%d" % oid] = True
+            elif kind == "sort_inplace":
+                op["reverse"] = rw.random() < 0.4
+            elif kind == "register":
+                op["key"] = rw.choice(keys + ["Xx", "Yy"])
             elif kind == "subset":
                 op["bits"] = [rw.randint(0, 1) for _ in bank]
                 op["raise_at"] = rf.randint(1, 6) if rf.random() < fault_rate else None
@@ -621,15 +628,22 @@ def execute(case):
             continue
 
         if kind == "concat":
-            pre_a_rx, pre_a_subs = list(A[1]), list(A[2])
-            yes = [i for i in B[1] if not any(mb.same_stoich(i, j) for j in pre_a_rx)]
-            no = [i for i in B[1] if any(mb.same_stoich(i, j) for j in pre_a_rx)]
-            ty = set().union(*[mb.keys(i) for i in yes]) if yes else set()
-            tn = set().union(*[mb.keys(i) for i in no]) if no else set()
-            exp_sum = [pre_a_rx + yes, M.ordered_union(pre_a_subs, [k for k in B[2] if k in ty])]
-            exp_skip = [no, [k for k in B[2] if k in tn]]
+            others = [op["b"]] + [x for x in op.get("more", []) if x in live and x != op["a"]]
+            sum_rx, sum_subs = list(A[1]), list(A[2])
+            skip_rx, skip_subs = [], []
+            for oid_ in others:
+                O = live[oid_]
+                yes = [i for i in O[1] if not any(mb.same_stoich(i, j) for j in sum_rx)]
+                no = [i for i in O[1] if any(mb.same_stoich(i, j) for j in sum_rx)]
+                ty = set().union(*[mb.keys(i) for i in yes]) if yes else set()
+                tn = set().union(*[mb.keys(i) for i in no]) if no else set()
+                sum_rx = sum_rx + yes
+                sum_subs = M.ordered_union(sum_subs, [k for k in O[2] if k in ty])
+                skip_rx = skip_rx + no
+                skip_subs = M.ordered_union(skip_subs, [k for k in O[2] if k in tn])
+            exp_sum, exp_skip = [sum_rx, sum_subs], [skip_rx, skip_subs]
             try:
-                summed, skipped = ReactionSystem.concatenate([A[0], B[0]])
+                summed, skipped = ReactionSystem.concatenate([A[0]] + [live[x][0] for x in others])
             except Exception as ex:
                 refused(rec, idx, kind, ex, False)
                 continue
@@ -638,7 +652,36 @@ def execute(case):
             live["s%d.1" % oid] = [skipped, exp_skip[0], exp_skip[1]]
             rec["outcome"] = "ok"
             rec["result"] = [exp_sum, exp_skip]
-            states.add((kind, "ok", min(len(yes), 4), min(len(no), 4)))
+            states.add((kind, "ok", min(len(sum_rx) - len(A[1]), 4), min(len(skip_rx), 4), len(others)))
+            check_all(idx, kind)
+            hist.append(rec)
+            continue
+
+        if kind == "sort_inplace":
+            rkey = lambda k: tuple(-ord(c) for c in k) + (1,)  # noqa: E731
+            try:
+                if op.get("reverse"):
+                    A[0].sort_substances_inplace(key=lambda kv: rkey(kv[0]))
+                else:
+                    A[0].sort_substances_inplace()
+            except Exception as ex:
+                refused(rec, idx, kind, ex, False)
+                continue
+            A[2] = sorted(A[2], key=rkey if op.get("reverse") else None)
+            rec["outcome"], rec["result"] = "ok", list(A[2])
+            states.add((kind, "ok", bool(op.get("reverse"))))
+            check_all(idx, kind)
+            hist.append(rec)
+            continue
+
+        if kind == "register":
+            # the user registers a substance on the public ``substances`` mapping
+            k = op["key"]
+            A[0].substances[k] = mk_substance(k) if k in keys else Substance(k, composition={} if comps is not None else None)
+            if k not in A[2]:
+                A[2] = A[2] + [k]
+            rec["outcome"], rec["result"] = "ok", list(A[2])
+            states.add((kind, "ok", k in keys))
             check_all(idx, kind)
             hist.append(rec)
             continue
@@ -729,7 +772,7 @@ def execute(case):
             rec["outcome"], rec["result"] = "ok", got
             states.add((kind, "ok"))
         elif kind == "array":
-            vals = dict(zip(case["keys"], op["vals"]))
+            vals = _defaulting(dict(zip(case["keys"], op["vals"])), 1)
             var = op["variant"]
             want = [float(vals[k]) for k in subs]
             exp_raise = var in ("short", "unk_key") or (var == "missing_key" and len(subs) >= 1)
@@ -761,7 +804,7 @@ def execute(case):
             rec["outcome"], rec["result"] = "ok", want
             states.add((kind, "ok", var, min(len(subs), 6)))
         elif kind == "varied":
-            vals = dict(zip(case["keys"], op["vals"]))
+            vals = _defaulting(dict(zip(case["keys"], op["vals"])), 1)
             varied = {k: v for k, v in op["varied"].items() if k in subs}
             try:
                 arr, vkeys = obj.per_substance_varied({k: vals[k] for k in reversed(subs)}, OrderedDict((k, varied[k]) for k in sorted(varied, reverse=True)))
@@ -786,14 +829,14 @@ def execute(case):
             states.add((kind, "ok", len(want_keys)))
         elif kind == "bounds":
             c0 = [Fraction(v, 8) for v in op["c0"]]
-            cmap = dict(zip(case["keys"], c0))
+            cmap = _defaulting(dict(zip(case["keys"], c0)), Fraction(0))
             c0s = [cmap[k] for k in subs]
             try:
                 ub = obj.upper_conc_bounds({k: float(cmap[k]) for k in reversed(subs)})
             except Exception as ex:
                 refused(rec, idx, kind, ex, False)
                 continue
-            want = M.upper_bounds(comps, subs, c0s)
+            want = M.upper_bounds(_defaulting(comps, {}), subs, c0s)
             okb = len(ub) == len(subs)
             if okb:
                 for k, g, w in zip(subs, ub, want):
@@ -822,7 +865,7 @@ def execute(case):
             if moved and okb:
                 tot0, tot1 = {}, {}
                 for k in subs:
-                    for e, n in comps[k].items():
+                    for e, n in comps.get(k, {}).items():
                         if e != 0:
                             tot0[e] = tot0.get(e, 0) + n * cmap[k]
                             tot1[e] = tot1.get(e, 0) + n * x[k]
@@ -857,6 +900,17 @@ def execute(case):
 
     bump("live_systems", len(live))
     return {"history": hist, "violations": _dedup(viols), "stats": stats, "states": sorted(states, key=repr)}
+
+
+class _defaulting(dict):
+    """dict with a default for keys the case did not know about (substances registered later)."""
+
+    def __init__(self, d, default):
+        dict.__init__(self, d)
+        self._default = default
+
+    def __missing__(self, k):
+        return self._default
 
 
 def _irr_equal(mb, x, y):
